@@ -310,6 +310,11 @@ class C20(Scenario):
                     hs["terminal"] = "post"
                 for _ in range(rng.randint(0, 5)):
                     hs[rng.choice(OLD_HANDLERS)] = rng.choice(["post", "post", "pre"])
+                if rng.random() < 0.3:
+                    # handlers of the concrete classes late types derive from (second bases of
+                    # multiple-inheritance types, concrete compound operators)
+                    for hn in rng.sample(["conj", "real", "imag", "inner", "dot", "outer", "trace", "sym", "transposed", "div", "grad", "sin", "sqrt", "jacobian", "facet_normal", "cell_volume", "spatial_coordinate"], rng.randint(1, 3)):
+                        hs[hn] = rng.choice(["post", "post", "pre"])
                 # handlers named after new types: registered already, or still to come
                 hi = tnum + (3 if arm in ("late-handler", "late-family") else 1)
                 for _ in range(rng.randint(0, 3) + (2 if arm in ("late-handler", "late-family") else 0)):
